@@ -1074,7 +1074,7 @@ func exploreSignerPlugin(x *xrun, r *Rng, e *env, ctx context.Context, n int) {
 		format := Pick(r, []string{MtJWS, MtCOSE})
 		s := okSc()
 		s.Format = format
-		s.Payload = Pick(r, []int{0, 1, 2})
+		s.Payload = Pick(r, []int{0, 1, 2, 12, 13})
 		envb := e.envelope(s)
 		if r.Chance(2, 3) {
 			if format == MtJWS {
